@@ -27,6 +27,24 @@ struct RkvGen
   }
 };
 
+// a generator with more than 32 random bits: span 2^40 + 1024 (its low 32 bits are 1024, so a narrowed span is visible)
+struct RkvGen64
+{
+  uint64_t v;
+  static constexpr uint64_t min()
+  {
+    return 16u;
+  }
+  static constexpr uint64_t max()
+  {
+    return (uint64_t(1) << 40) + 1040u;
+  }
+  uint64_t operator()()
+  {
+    return v;
+  }
+};
+
 extern "C" {
 // R-C07-1 / R-C07-2
 float K_rcp(float x) { return rcp(x); }
@@ -76,4 +94,9 @@ void K_urd_ctor_d(uniform_real_distribution<double> *d, double lo, double hi)
 float K_urd_gen(uniform_real_distribution<float> *d, RkvGen *g) { return (*d)(*g); }
 double K_urd_gen_d(uniform_real_distribution<double> *d, RkvGen *g) { return (*d)(*g); }
 float K_urd_pcg(uniform_real_distribution<float> *d, pcg32 *g) { return (*d)(*g); }
+double K_urd_gen64_d(uniform_real_distribution<double> *d, RkvGen64 *g) { return (*d)(*g); }
+float K_urd_gen64(uniform_real_distribution<float> *d, RkvGen64 *g) { return (*d)(*g); }
+// lerp over integer element types (the definition converts each operand to float first)
+unsigned K_lerp_u(float f, unsigned a, unsigned b) { return lerp(f, a, b); }
+int K_lerp_i(float f, int a, int b) { return lerp(f, a, b); }
 }
